@@ -23,6 +23,7 @@ func runC02(c *core.Ctx) {
 	runC02Axioms(k)
 	runC02Facts(k)
 	runC02Tables(k)
+	runC01More(k) // bcheckAssert's acceptance gate and optimizeIOMethodAdvance are C02 mechanisms too
 }
 
 // ---- recognisers ----
